@@ -134,7 +134,43 @@ impl World {
             values: HashMap::new(), parked: vec![], notes: vec![], pending_w: BTreeMap::new(), paid: 0, seed, cut_sel: 0,
         };
         w.settle_constructor_flush(gates).await;
+        if w.cfg.filler > 0 {
+            w.load_filler(gates).await;
+        }
         w
+    }
+
+    /// Padding (DESIGN.md 2): filler records closer than every model key, written and acknowledged before
+    /// the behaviour starts, so that the real clean-up threshold (MAX_RECORDS_COUNT / 10 = 1638) is within
+    /// reach of a handful of model keys. They are invisible in the projected state.
+    async fn load_filler(&mut self, gates: &mut mpsc::UnboundedReceiver<GateEvent>) {
+        let keys = self.filler_keys.clone();
+        for (i, key) in keys.iter().enumerate() {
+            let mut bytes = RecordHeader { kind: RecordKind::Chunk }.try_serialize().expect("header").to_vec();
+            bytes.extend_from_slice(format!("filler {i}").as_bytes());
+            let rec = Record { key: key.clone(), value: bytes, publisher: None, expires: None };
+            vh::store_put_verified(&mut self.store, rec, RecordType::Chunk).expect("filler put");
+            if i % 64 == 63 || i + 1 == keys.len() {
+                // run the parked writes and acknowledge them
+                for _ in 0..3 { tokio::task::yield_now().await; }
+                while let Ok(ev) = gates.try_recv() {
+                    if let GateEvent::Arrived(req) = ev { let _ = req.release.send(()); }
+                }
+                for _ in 0..40 {
+                    tokio::task::yield_now().await;
+                    while let Ok(ev) = gates.try_recv() {
+                        if let GateEvent::Arrived(req) = ev { let _ = req.release.send(()); }
+                    }
+                    while let Ok(cmd) = self.cmd_rx.try_recv() {
+                        if let LocalSwarmCmd::AddLocalRecordAsStored { key, record_type } = cmd {
+                            vh::store_mark_as_stored(&mut self.store, key, record_type);
+                        }
+                    }
+                }
+            }
+        }
+        let held = vh::store_record_addresses_ref(&self.store).len();
+        assert_eq!(held, self.cfg.filler, "filler records must all be acknowledged");
     }
 
     /// the constructor spawns one metrics flush: let it run at once (not part of the behaviours)
@@ -259,7 +295,8 @@ impl World {
         let (idx, f_idx) = self.filler_in(vh::store_record_addresses_ref(&self.store).keys().cloned());
         let (byd, f_byd) = self.filler_in(self.store.verif_records_by_distance().into_iter());
         let (cache, _) = self.filler_in(self.store.verif_cache_keys().into_iter());
-        let far = self.store.get_farthest().map(|k| { let id = self.key_id(&k); if id == 0 { 998 } else { id } }).unwrap_or(0);
+        // a filler record is the farthest one only while no model key is held (then the model's view is "none")
+        let far = self.store.get_farthest().map(|k| { let id = self.key_id(&k); if id != 0 { id } else if self.filler_keys.contains(&k) && idx.is_empty() { 0 } else { 998 } }).unwrap_or(0);
         let files: Vec<usize> = (1..=self.cfg.nk).filter(|&k| self.file_of(k).exists()).collect();
         let rb: Vec<i64> = (1..=self.cfg.nk)
             .map(|k| match self.store.get(&self.keys[k - 1]) {
@@ -536,6 +573,33 @@ async fn run() {
                 break;
             }
         }
+        drop(w);
+        let _ = std::fs::remove_dir_all(&dir);
+    }
+    // clean-up runs at the real threshold: 1636 filler records + a few model keys, settled, a range, clean-up
+    let n_pad: usize = arg("--padded").and_then(|s| s.parse().ok()).unwrap_or(0);
+    for i in 0..n_pad {
+        run_no += 1;
+        let mut rng = StdRng::seed_from_u64(seed.wrapping_mul(15_485_863).wrapping_add(i as u64));
+        let dir = work.join(format!("run-{run_no}"));
+        let filler = if i % 4 == 3 { 1635 } else { 1636 };   // one short of the threshold in every fourth run
+        let mut w = World::new(&mut rng, dir.clone(), Cfg { nk: 4, max_records: 4, cache_size: 1, filler }, &mut gates).await;
+        t.emit(json!({"ev":"Reset","run":run_no,"src":"padded","nk":4,"max":4,"cache":1,"threshold":1638 - filler}));
+        let mut keys: Vec<usize> = (1..=4).collect();
+        keys.shuffle(&mut rng);
+        let n_keys = rng.gen_range(1..=4);
+        prefill(&mut w, &mut gates, &mut t, &keys[..n_keys], "padded").await;
+        if rng.gen_bool(0.85) {
+            step(&mut w, &mut gates, &mut t, &json!({"ev":"SetRange","rg":rng.gen_range(1..=4)}), "padded").await;
+        }
+        step(&mut w, &mut gates, &mut t, &json!({"ev":"Quote"}), "padded").await;
+        step(&mut w, &mut gates, &mut t, &json!({"ev":"Cleanup"}), "padded").await;
+        while !w.parked.is_empty() {
+            let p = &w.parked[0];
+            let s = json!({"ev":"RunTask","t":{"kind":p.id.kind,"k":p.id.k,"v":p.id.v}});
+            step(&mut w, &mut gates, &mut t, &s, "padded").await;
+        }
+        step(&mut w, &mut gates, &mut t, &json!({"ev":"Quote"}), "padded").await;
         drop(w);
         let _ = std::fs::remove_dir_all(&dir);
     }
